@@ -176,6 +176,9 @@ func NewPeer(
 	bswapnet := bsnet.NewFromIpfsHost(h)
 	bswap := bitswap.New(ctx, bswapnet, ddht, bs, bitswap.WithPeerBlockRequestFilter(p.server.hasAccess))
 	p.blockService = blockservice.New(bs, bswap)
+	if simEnabled {
+		p.blockService = simBlockService(p, p.blockService)
+	}
 
 	p2pListener, err := gostream.Listen(h, corenet.Protocol)
 	if err != nil {
